@@ -70,3 +70,6 @@ func VerifBuild(ctx context.Context, o VerifOptions) (*VerifStack, error) {
 	)
 	return &VerifStack{Server: server, CertWatcher: cw, Registry: PrometheusRegistry}, nil
 }
+
+// VerifEnvBool exposes the boolean environment reader the flag defaults are built from (ENABLE_KUBERNETES_PROBE, ...).
+func VerifEnvBool(key string, def bool) bool { return envWithDefaultBool(key, def) }
